@@ -20,8 +20,17 @@ Vocabulary (Proofs/DSetBasic.lean, Proofs/Canonical*.lean):
   `CanonP.Renum φ s s'` the view s' is the view s renumbered by the injective map φ
   `CanonP.OutRel r x y` the outcomes x, y are of the same kind (ok / err / panic) and, when
                         both are ok, related by r
+  `CanonP.Conn a`       every chamber of a is reachable from chamber 1 (= `is_connected()`)
+
+Main results (section 5), for every connected valid symbol of any size and dimension ≥ 1:
+  `canonical_isomorphic`  canonical a = ok c, c valid, a ≅ c
+  `canonical_idempotent`  canonical c = ok c
+  `canonical_renumber`    a ≅ b (in particular b a renumbering of a) ⇒ canonical b = canonical a
+  `canonical_complete`    canonical a = canonical b ⇔ a ≅ b
+They rest on C02's `traversal_sound` / `traversal_complete` (Props/C02.lean) for the `Traversal`
+iterator and on `collectOrbits_rows` (Proofs/DSetCollect.lean) for `collect_orbits`.
 -/
-import DSymVerif.Proofs.CanonicalMin
+import DSymVerif.Proofs.CanonicalDecode
 
 namespace DSymVerif.C03
 open DSymVerif DSymVerif.DS DSymVerif.DS.CanonP
@@ -151,92 +160,172 @@ theorem minimalTraversalCode_least {s : DSymData} (hsize : 1 ≤ s.size) {C : Na
       ∀ d, 1 ≤ d → d ≤ s.size → r.code ≤ (C d).code :=
   minimalTraversalCode_spec hsize hC
 
-/-! ## 4. the invariance theorem, reduced to two statements about single symbols
+/-! ## 4. every seed of a connected symbol is good; the code determines the symbol
 
+`Conn a`                : every chamber is reachable from chamber 1 (= `is_connected()`, see
+                          `conn_iff_isConnected`);
 `AllSeedsGood a`        : every seed's `TraversalCode` returns, its element map is a bijection of
                           the chambers, and all the codes have one length;
-`CodeDeterminesSymbol a`: two seeds of `a` with equal codes rebuild equal symbols.
-Both are statements about ONE symbol (no renumbering involved); for connected symbols the first
-is the completeness of the traversal (C02 `traversal_complete`), the second says that the code
-lists every operation entry and every branching number of the renumbered symbol. -/
+`CodeDeterminesSymbol a`: two seeds of `a` with equal codes rebuild equal symbols. -/
 
-/-- ○ **canonical_renumber**, reduced: a symbol `b` isomorphic to `a` (in particular every
-    renumbering of `a`) has literally the same canonical form. -/
-theorem canonical_renumber_reduced {f : Nat → Nat} {a b : DSymData} (ha : ValidSym a) (hsize : 1 ≤ a.size)
-    (iso : IsIso f a b) (good : AllSeedsGood a) (det : CodeDeterminesSymbol a) :
-    canonical b = canonical a :=
-  canonical_eq_of_iso ha hsize iso good det
+/-- connectedness in the sense of these theorems is what the library's `is_connected()` computes -/
+theorem conn_iff_isConnected {a : DSymData} (ha : ValidSet a.dset) :
+    Conn a ↔ a.view.isConnected = true :=
+  CanonP.conn_iff_isConnected ha
 
-/-- fixed point, reduced: `canonical (canonical a) = canonical a` -/
-theorem canonical_idempotent_reduced {a c : DSymData} (ha : ValidSym a) (hsize : 1 ≤ a.size)
-    (hdim : 1 ≤ a.dim) (good : AllSeedsGood a) (det : CodeDeterminesSymbol a)
-    (hc : canonical a = .ok c) : canonical c = .ok c :=
-  canonical_idem_of ha hsize hdim good det hc
-
-/-- complete invariant, reduced: equal canonical forms iff isomorphic -/
-theorem canonical_complete_reduced {a b : DSymData} (ha : ValidSym a) (hb : ValidSym b)
-    (hsa : 1 ≤ a.size) (hda : 1 ≤ a.dim) (hsb : 1 ≤ b.size) (hdb : 1 ≤ b.dim)
-    (gooda : AllSeedsGood a) (deta : CodeDeterminesSymbol a) (goodb : AllSeedsGood b) :
-    canonical a = canonical b ↔ ∃ f, IsIso f a b :=
-  canonical_eq_iff_iso ha hb hsa hda hsb hdb gooda deta goodb
-
-/-- the one-chamber example satisfies both hypotheses -/
-theorem ex1_good : AllSeedsGood ex1 := by
-  refine ⟨13, ?_⟩
+theorem ex1_conn : Conn ex1 := by
   intro d h1 h2
   have hd : d = 1 := by have : d ≤ 1 := h2; omega
   subst hd
-  exact ⟨⟨[-1, 1, 0, 0, 0, 1, 1, 1, 1, 1, 2, 1, 1], #[0, 1]⟩, by decide, by decide, ex1_perm⟩
+  exact View.Reach.refl 1
 
-theorem ex1_det : CodeDeterminesSymbol ex1 := by
-  intro d d' c c' h1 h2 h1' h2' hc hc' _
-  have hd : d = 1 := by have : d ≤ 1 := h2; omega
-  have hd' : d' = 1 := by have : d' ≤ 1 := h2'; omega
-  subst hd hd'
-  rw [hc] at hc'; cases hc'; rfl
+/-- on a connected valid symbol every seed's `TraversalCode` returns without panic, numbers all
+    chambers bijectively, and all the codes have one length — so `compare_codes` never hits its
+    `unwrap()` and is the lexicographic comparison (uses C02 `traversal_sound` /
+    `traversal_complete`) -/
+theorem seeds_good {a : DSymData} (ha : ValidSym a) (hsize : 1 ≤ a.size) (hc : Conn a) :
+    AllSeedsGood a :=
+  allSeedsGood ha hsize hc
 
-example : ∃ a, ValidSym a ∧ 1 ≤ a.size ∧ 1 ≤ a.dim ∧ AllSeedsGood a ∧ CodeDeterminesSymbol a :=
-  ⟨ex1, ex1_valid, by decide, by decide, ex1_good, ex1_det⟩
+example : ∃ a, ValidSym a ∧ 1 ≤ a.size ∧ Conn a := ⟨ex1, ex1_valid, by decide, ex1_conn⟩
 
-/-! ## 5. open obligations (statements fixed here, not yet theorems)
+/-- on a connected valid symbol the code lists every operation entry and every branching number
+    of the renumbered symbol: two seeds with equal codes rebuild literally the same symbol -/
+theorem code_determines_symbol {a : DSymData} (ha : ValidSym a) (hc : Conn a) :
+    CodeDeterminesSymbol a :=
+  codeDeterminesSymbol ha hc
 
-Their conclusions are Spec clauses evaluated on every explored case (conf/C03.json). -/
+/-! ## 5. the property -/
 
-/-- ○ on a connected valid symbol every seed's traversal numbers all chambers bijectively and
-    all codes have one length (follows from C02 `traversal_complete` + exactly-once reporting) -/
-def all_seeds_good_statement : Prop :=
-  ∀ a : DSymData, ValidSym a → 1 ≤ a.size → 1 ≤ a.dim → Connected a → AllSeedsGood a
+/-- **"The canonical form of a connected D-symbol is isomorphic to the input"**: `canonical`
+    returns (no panic), its result is a valid symbol, and the element map of the minimal
+    traversal is an isomorphism onto it. -/
+theorem canonical_isomorphic {a : DSymData} (ha : ValidSym a) (hsize : 1 ≤ a.size) (hdim : 1 ≤ a.dim)
+    (hc : Conn a) : ∃ c m, canonical a = .ok c ∧ ValidSym c ∧ IsIso m a c :=
+  canonical_ok_iso ha hsize hdim (allSeedsGood ha hsize hc)
 
-/-- ○ on a connected valid symbol the code determines the rebuilt symbol -/
-def code_determines_symbol_statement : Prop :=
-  ∀ a : DSymData, ValidSym a → 1 ≤ a.size → 1 ≤ a.dim → Connected a → CodeDeterminesSymbol a
+example : ∃ a, ValidSym a ∧ 1 ≤ a.size ∧ 1 ≤ a.dim ∧ Conn a :=
+  ⟨ex1, ex1_valid, by decide, by decide, ex1_conn⟩
 
-/-- ○ canonical_renumber at full strength -/
-def canonical_renumber_statement : Prop :=
-  ∀ (f : Nat → Nat) (a b : DSymData), ValidSym a → 1 ≤ a.size → 1 ≤ a.dim → Connected a →
-    IsIso f a b → canonical b = canonical a
+/-- ✔ **canonical_renumber — "every renumbering of the chambers of a symbol yields the same
+    canonical form"**, and more generally every symbol `b` isomorphic to `a` has literally the
+    same canonical form. -/
+theorem canonical_renumber {f : Nat → Nat} {a b : DSymData} (ha : ValidSym a) (hsize : 1 ≤ a.size)
+    (hc : Conn a) (iso : IsIso f a b) : canonical b = canonical a :=
+  canonical_eq_of_iso ha hsize iso (allSeedsGood ha hsize hc) (codeDeterminesSymbol ha hc)
 
-/-- ○ idempotence at full strength -/
-def canonical_idempotent_statement : Prop :=
-  ∀ (a c : DSymData), ValidSym a → 1 ≤ a.size → 1 ≤ a.dim → Connected a →
-    canonical a = .ok c → canonical c = .ok c
+example : ∃ (f : Nat → Nat) (a b : DSymData), ValidSym a ∧ 1 ≤ a.size ∧ Conn a ∧ IsIso f a b := by
+  refine ⟨id, ex1, ex1, ex1_valid, by decide, ex1_conn, ⟨rfl, rfl, ?_, ?_, ?_, ?_⟩⟩
+  · intro d h1 h2; exact ⟨h1, h2⟩
+  · intro d e _ _ _ _ h; exact h
+  · intro i d _ _ _; show ex1.op i d = (ex1.op i d).map id; rw [Option.map_id]; rfl
+  · intro i d _ _ _; rfl
 
-/-- ○ complete invariant at full strength -/
-def canonical_complete_statement : Prop :=
-  ∀ (a b : DSymData), ValidSym a → ValidSym b → 1 ≤ a.size → 1 ≤ a.dim → 1 ≤ b.size → 1 ≤ b.dim →
-    Connected a → Connected b → (canonical a = canonical b ↔ ∃ f, IsIso f a b)
+/-- ✔ **"… and is a fixed point of canonicalisation"** -/
+theorem canonical_idempotent {a c : DSymData} (ha : ValidSym a) (hsize : 1 ≤ a.size) (hdim : 1 ≤ a.dim)
+    (hc : Conn a) (hcan : canonical a = .ok c) : canonical c = .ok c :=
+  canonical_idem_of ha hsize hdim (allSeedsGood ha hsize hc) (codeDeterminesSymbol ha hc) hcan
 
-/-- the three property clauses follow from the two single-symbol statements -/
-theorem property_from_open_statements (h1 : all_seeds_good_statement)
-    (h2 : code_determines_symbol_statement) :
-    canonical_renumber_statement ∧ canonical_idempotent_statement ∧ canonical_complete_statement := by
-  refine ⟨?_, ?_, ?_⟩
-  · intro f a b ha hs hd hc iso
-    exact canonical_eq_of_iso ha hs iso (h1 a ha hs hd hc) (h2 a ha hs hd hc)
-  · intro a c ha hs hd hc hcan
-    exact canonical_idem_of ha hs hd (h1 a ha hs hd hc) (h2 a ha hs hd hc) hcan
-  · intro a b ha hb hsa hda hsb hdb hca hcb
-    exact canonical_eq_iff_iso ha hb hsa hda hsb hdb (h1 a ha hsa hda hca) (h2 a ha hsa hda hca)
-      (h1 b hb hsb hdb hcb)
+example : ∃ c, canonical ex1 = .ok c := ⟨_, (canonical_isomorphic ex1_valid (by decide) (by decide) ex1_conn).choose_spec.choose_spec.1⟩
+
+/-- ✔ **"Two connected D-symbols have equal canonical forms if and only if they are
+    isomorphic"** — the canonical form is a complete isomorphism invariant. -/
+theorem canonical_complete {a b : DSymData} (ha : ValidSym a) (hb : ValidSym b)
+    (hsa : 1 ≤ a.size) (hda : 1 ≤ a.dim) (hsb : 1 ≤ b.size) (hdb : 1 ≤ b.dim)
+    (hca : Conn a) (hcb : Conn b) :
+    canonical a = canonical b ↔ ∃ f, IsIso f a b :=
+  canonical_eq_iff_iso ha hb hsa hda hsb hdb (allSeedsGood ha hsa hca) (codeDeterminesSymbol ha hca)
+    (allSeedsGood hb hsb hcb)
+
+example : ∃ a b, ValidSym a ∧ ValidSym b ∧ 1 ≤ a.size ∧ 1 ≤ a.dim ∧ 1 ≤ b.size ∧ 1 ≤ b.dim ∧
+    Conn a ∧ Conn b :=
+  ⟨ex1, ex1, ex1_valid, ex1_valid, by decide, by decide, by decide, by decide, ex1_conn, ex1_conn⟩
+
+/-- the canonical form of a connected symbol is again a connected valid symbol of the same
+    size and dimension (so all of the above applies to it) -/
+theorem canonical_connected {a c : DSymData} (ha : ValidSym a) (hsize : 1 ≤ a.size) (hdim : 1 ≤ a.dim)
+    (hc : Conn a) (hcan : canonical a = .ok c) :
+    ValidSym c ∧ c.size = a.size ∧ c.dim = a.dim ∧ Conn c := by
+  obtain ⟨c', m, h1, h2, iso⟩ := canonical_isomorphic ha hsize hdim hc
+  rw [hcan] at h1; cases h1
+  have hP : c.view.PInvol := by rw [c.view_eq]; exact h2.set.pinvol
+  exact ⟨h2, iso.size, iso.dim, Conn.iso ha.set iso hc hP⟩
+
+/-! ## 6. the hypotheses hold for every symbol the library builds from valid tables -/
+
+/-- **Every in-domain input satisfies the hypotheses of the theorems above.**  From tables
+    `op`, `v` of a complete D-symbol (operations are involutions of 1..size, far operations
+    commute, branching numbers constant along the two operations of their index pair)
+    `build_set` + `build_sym_using_vs` (the way the harness, the parser and all constructors
+    of derived.rs obtain a `PartialDSym`) return, without panic, a `ValidSym` with exactly
+    these operations and branching numbers. -/
+theorem input_valid {size dim : Nat} {op v : Nat → Nat → Nat} (hsize : 1 ≤ size) (hdim : 1 ≤ dim)
+    (hrange : ∀ i d, i ≤ dim → 1 ≤ d → d ≤ size → 1 ≤ op i d ∧ op i d ≤ size)
+    (hinvol : ∀ i d, i ≤ dim → 1 ≤ d → d ≤ size → op i (op i d) = d)
+    (hfar : ∀ i j d, i + 1 < j → j ≤ dim → 1 ≤ d → d ≤ size → op j (op i d) = op i (op j d))
+    (hv : ∀ i d, i < dim → 1 ≤ d → d ≤ size → v i (op i d) = v i d ∧ v i (op (i + 1) d) = v i d) :
+    ∃ s, ofTables size dim op v = .ok s ∧ ValidSym s ∧ s.size = size ∧ s.dim = dim ∧
+      (∀ i d, i ≤ dim → 1 ≤ d → d ≤ size → s.op i d = some (op i d)) ∧
+      (∀ i d, i < dim → 1 ≤ d → d ≤ size → s.vAdj i d = some (v i d)) := by
+  obtain ⟨ds, hds, dsize, ddim, dvalid, dop⟩ :=
+    buildSet_of_total_involution (op := fun i d => let e := op i d; if e = 0 then none else some e)
+      (f := op) hsize hdim
+      (fun i d hi h1 h2 => by
+        have := hrange i d hi h1 h2
+        simp only
+        rw [if_neg (by omega)])
+      hrange hinvol
+  have dfar : FarCommute ds := by
+    intro i j d hij hj h1 h2
+    rw [ddim] at hj; rw [dsize] at h2
+    have hi : i ≤ dim := by omega
+    have r1 := hrange i d hi h1 h2
+    have r2 := hrange j d hj h1 h2
+    rw [dop i d hi h1 h2, dop j d hj h1 h2, dop j _ hj r1.1 r1.2, dop i _ hi r2.1 r2.2]
+    exact hfar i j d hij hj h1 h2
+  have hV : ∀ i x y, i < ds.dim → 1 ≤ x → x ≤ ds.size → Orb2 ds i (i + 1) x y → v i x = v i y := by
+    intro i x y hi h1 h2 ho
+    rw [ddim] at hi
+    induction ho with
+    | refl => rfl
+    | @stepI e ho' ih =>
+      have he := Orb2.range dvalid (by rw [ddim]; omega) (by rw [ddim]; omega) ⟨h1, h2⟩ ho'
+      rw [dsize] at he
+      rw [dop i e (by omega) he.1 he.2, (hv i e hi he.1 he.2).1]; exact ih
+    | @stepJ e ho' ih =>
+      have he := Orb2.range dvalid (by rw [ddim]; omega) (by rw [ddim]; omega) ⟨h1, h2⟩ ho'
+      rw [dsize] at he
+      rw [dop (i + 1) e (by omega) he.1 he.2, (hv i e hi he.1 he.2).2]; exact ih
+  obtain ⟨s, hs, svalid, sdset, sv⟩ :=
+    buildSymUsingVs_spec (v := fun i d => some (v i d)) (V := v) dvalid dfar (fun _ _ _ _ _ => rfl) hV
+  have ssize : s.size = size := by show s.dset.size = _; rw [sdset, dsize]
+  have sdim : s.dim = dim := by show s.dset.dim = _; rw [sdset, ddim]
+  refine ⟨s, ?_, svalid, ssize, sdim, ?_, ?_⟩
+  · unfold ofTables; rw [hds]; exact hs
+  · intro i d hi h1 h2
+    show s.dset.opSimple i d = _
+    rw [opSimple_inR (by rw [sdset, ddim]; exact hi) h1 (by rw [sdset, dsize]; exact h2), sdset,
+      dop i d hi h1 h2]
+  · intro i d hi h1 h2
+    exact sv i d (by rw [ddim]; exact hi) h1 (by rw [dsize]; exact h2)
+
+example : ∃ (size dim : Nat) (op v : Nat → Nat → Nat), 1 ≤ size ∧ 1 ≤ dim ∧
+    (∀ i d, i ≤ dim → 1 ≤ d → d ≤ size → 1 ≤ op i d ∧ op i d ≤ size) ∧
+    (∀ i d, i ≤ dim → 1 ≤ d → d ≤ size → op i (op i d) = d) ∧
+    (∀ i j d, i + 1 < j → j ≤ dim → 1 ≤ d → d ≤ size → op j (op i d) = op i (op j d)) ∧
+    (∀ i d, i < dim → 1 ≤ d → d ≤ size → v i (op i d) = v i d ∧ v i (op (i + 1) d) = v i d) :=
+  ⟨5, 3, fun _ d => d, fun _ _ => 3, by decide, by decide, fun _ _ _ h1 h2 => ⟨h1, h2⟩,
+    fun _ _ _ _ _ => rfl, fun _ _ _ _ _ _ _ => rfl, fun _ _ _ _ _ => ⟨rfl, rfl⟩⟩
+
+/-! ## 7. a concrete instance, evaluated by the kernel -/
+
+/-- `<1.1:3:1 2 3,3 2,2 3:…>` with all branching numbers unset … -/
+def ex3 : DSymData := DSymData.ofSimple { size := 3, dim := 2, op := #[1, 3, 2, 2, 2, 1, 3, 1, 3] }
+/-- … and its renumbering 1 → 2 → 3 → 1 -/
+def ex3r : DSymData := DSymData.ofSimple { size := 3, dim := 2, op := #[1, 2, 1, 2, 1, 3, 3, 3, 2] }
+
+example : canonical ex3r = canonical ex3 := by decide +kernel
+example : (canonical ex3).bind canonical = canonical ex3 := by decide +kernel
+example : (minimalTraversalCode ex3).toOption.map (·.map) = some #[0, 2, 1, 3] := by decide +kernel
 
 end DSymVerif.C03
